@@ -1,5 +1,6 @@
 import Svgbob.Model.Front
 import Svgbob.Model.Doc
+import Svgbob.Model.Pipeline
 /-!
 Line-protocol driver for the executable model. `svgbob_model <mode>` reads one case per line
 on stdin and answers one line per case in the same canonical format as the Rust harness.
@@ -123,6 +124,49 @@ def pFrags (s : String) : List Frag :=
 def pGroups (s : String) : List (List Frag) :=
   if s == "-" then [] else (s.splitOn "#").map pFrags
 
+def showMarker : Option Marker → String
+  | none => "-"
+  | some m => m.name
+
+def showTag : PolygonTag → String
+  | .arrowTopLeft => "ArrowTopLeft" | .arrowTop => "ArrowTop" | .arrowTopRight => "ArrowTopRight"
+  | .arrowLeft => "ArrowLeft" | .arrowRight => "ArrowRight" | .arrowBottomLeft => "ArrowBottomLeft"
+  | .arrowBottom => "ArrowBottom" | .arrowBottomRight => "ArrowBottomRight"
+  | .diamondBullet => "DiamondBullet"
+
+def b01 (b : Bool) : String := if b then "1" else "0"
+
+/-- the harness's `dump_fragment` -/
+def showFrag : Frag → String
+  | .line s e b => s!"L:{s.x},{s.y},{e.x},{e.y},{b01 b}"
+  | .markerLine s e b sm em => s!"M:{s.x},{s.y},{e.x},{e.y},{b01 b},{showMarker sm},{showMarker em}"
+  | .circle c r f => s!"C:{c.x},{c.y},{r},{b01 f}"
+  | .arc s e r m sw => s!"A:{s.x},{s.y},{e.x},{e.y},{r},{b01 m},{b01 sw}"
+  | .polygon pts f tags =>
+    let ts := if tags.isEmpty then "-" else "+".intercalate (tags.map showTag)
+    let ps := "/".intercalate (pts.map fun p => s!"{p.x},{p.y}")
+    s!"P:{b01 f}:{ts}:{ps}"
+  | .rect s e f r b =>
+    let rs := match r with | some v => toString v | none => "-"
+    s!"R:{s.x},{s.y},{e.x},{e.y},{b01 f},{rs},{b01 b}"
+  | .cellText st c => s!"T:{st.x},{st.y},{hexOfChars c}"
+  | .text st c => s!"X:{st.x},{st.y},{hexOfChars c}"
+
+def showFrags (fs : List Frag) : String :=
+  if fs.isEmpty then "-" else ";".intercalate (fs.map showFrag)
+
+def showGroups (gs : List (List Frag)) : String :=
+  if gs.isEmpty then "-" else "#".intercalate (gs.map showFrags)
+
+def pEsc (s : String) : List (Cell × List Char) :=
+  if s == "" then [] else (s.splitOn ";").filterMap fun e =>
+    match e.splitOn "," with
+    | [x, y, h] => some (⟨pInt x, pInt y⟩, unhex h)
+    | _ => none
+
+/-- the catalogue tables, computed once -/
+def theCatalogue : Option Catalogue := catalogue
+
 /-- `key=value` lookup in a comma separated token -/
 def kv (tok key : String) : Option String :=
   (tok.splitOn ",").findSome? fun e =>
@@ -163,6 +207,15 @@ def byteLen (cs : List Char) : Nat := (String.ofList cs).utf8ByteSize
 
 def stripPrefix (p s : String) : String := (s.drop p.length).toString
 
+/-- text → (top-level fragments, groups) through front end and middle -/
+def midOf (cells : Span) (esc : List (Cell × List Char)) : Option (List Frag × List (List Frag)) :=
+  match theCatalogue with
+  | none => none
+  | some cat =>
+    match endorseAll byteLen cat cells esc with
+    | none => none
+    | some (fs, gs) => some (fs.map (·.frag), gs.map fun g => g.map (·.frag))
+
 def handle (mode : String) (fields : List String) : String :=
   match mode, fields with
   | "front", [inp, env] => showFront (front (parseEnv env) (unhex inp))
@@ -184,6 +237,18 @@ def handle (mode : String) (fields : List String) : String :=
     let root := svgRoot byteLen cfg (pCells (stripPrefix "cells=" cells)) (pCss (stripPrefix "css=" css))
       (pFrags (stripPrefix "frags=" frags)) (pGroups (stripPrefix "groups=" groups))
     "ok " ++ hexOfChars (Node.render cfg.den (pretty == "pretty") 0 root)
+  | "mid", [cells, esc] =>
+    match midOf (pCells (stripPrefix "cells=" cells)) (pEsc (stripPrefix "esc=" esc)) with
+    | none => "panic"
+    | some (fs, gs) => "frags=" ++ showFrags fs ++ " groups=" ++ showGroups gs
+  | "full", [pretty, cfgTok, css0, inp, env] =>
+    let fo := front (parseEnv env) (unhex inp)
+    match midOf fo.cells fo.escaped with
+    | none => "panic"
+    | some (fs, gs) =>
+      let cfg := pCfg cfgTok (unhex css0)
+      let root := svgRoot byteLen cfg fo.cells fo.css fs gs
+      "ok " ++ hexOfChars (Node.render cfg.den (pretty == "pretty") 0 root)
   | _, _ => "bad-request"
 
 partial def loop (h : IO.FS.Stream) (out : IO.FS.Stream) (mode : String) : IO Unit := do
